@@ -1,1 +1,148 @@
-From AL Require Import C15.Model C15.Spec.
+(* C15 - MultiKeyDict / StrategyDict: the statements that are proved.
+   view_ok, op_ok, WF, stamp, astate_after, mem, nk, notin are defined in
+   C15.Proofs (and its layers Proofs_Assoc / Proofs_Abs / Proofs_Mkd / Proofs_Sd).
+   op_ok o  :=  match o with OSet kt _ => kt <> [] | _ => True end
+   (no assignment through the empty tuple; see the counterexamples below). *)
+From Coq Require Import List Bool Arith Sorted.
+From AL Require Import Base.CaseLib C15.Model C15.Spec C15.Check C15.Proofs.
+Import ListNotations.
+
+(* the boolean checker of the case files is the Prop used below *)
+Theorem C15_view_okb_true_iff : forall o s, view_okb o s = true <-> view_ok o s.
+Proof. exact view_okb_true_iff. Qed.
+Print Assumptions C15_view_okb_true_iff.
+
+(* ---- refinement: model of the implementation vs specification, all histories *)
+Theorem C15_mkd_refines : forall ks vs ops,
+  Forall op_ok ops ->
+  Forall2 view_ok (mrun ks vs empty ops) (arun false ks vs ainit ops).
+Proof. exact mkd_refines. Qed.
+Print Assumptions C15_mkd_refines.
+
+Theorem C15_sd_refines : forall ks vs ops,
+  Forall op_ok ops ->
+  Forall2 view_ok (srun ks vs sd_empty ops) (arun true ks vs ainit ops).
+Proof. exact sd_refines. Qed.
+Print Assumptions C15_sd_refines.
+
+(* the hypothesis cannot be dropped: d[()] = v stores a value without any name *)
+Theorem C15_mkd_empty_tuple_counterexample :
+  view_okb (hd (mview [] [] empty false) (mrun [0] [0] empty [OSet [] 0]))
+           (hd (mview [] [] empty false) (arun false [0] [0] ainit [OSet [] 0])) = false.
+Proof. exact mkd_empty_tuple_counterexample. Qed.
+Print Assumptions C15_mkd_empty_tuple_counterexample.
+
+Theorem C15_sd_empty_tuple_counterexample :
+  view_okb (hd (sview [] [] sd_empty false) (srun [0] [0] sd_empty [OSet [] 0]))
+           (hd (sview [] [] sd_empty false) (arun true [0] [0] ainit [OSet [] 0])) = false.
+Proof. exact sd_empty_tuple_counterexample. Qed.
+Print Assumptions C15_sd_empty_tuple_counterexample.
+
+(* every state the specification can reach is well formed *)
+Theorem C15_reachable_wf : forall st ops, WF (astate_after st ops).
+Proof. exact WF_after. Qed.
+Print Assumptions C15_reachable_wf.
+
+(* ---- user-visible corollaries, on the specification *)
+Theorem C15_get_is_last_assigned : forall a kt v k,
+  (In k kt -> aval (aspec_set false a kt v) k = Some v) /\
+  (~ In k kt -> aval (aspec_set false a kt v) k = aval a k).
+Proof. exact get_is_last_assigned. Qed.
+Print Assumptions C15_get_is_last_assigned.
+
+Theorem C15_sd_get_is_last_assigned : forall a kt v k, WF a ->
+  (In k kt -> aval (aspec_set true a kt v) k = Some v) /\
+  (~ In k kt -> aval (aspec_set true a kt v) k = aval a k).
+Proof. exact sd_get_is_last_assigned. Qed.
+Print Assumptions C15_sd_get_is_last_assigned.
+
+Theorem C15_del_missing_raises : forall st a k,
+  aval a k = None -> aspec_del st a k = (a, true).
+Proof. exact del_missing_raises. Qed.
+Print Assumptions C15_del_missing_raises.
+
+Theorem C15_del_present_removes : forall st a k v, WF a ->
+  aval a k = Some v ->
+  snd (aspec_del st a k) = false /\
+  forall k', aval (fst (aspec_del st a k)) k' = if Nat.eqb k' k then None else aval a k'.
+Proof. exact del_present_removes. Qed.
+Print Assumptions C15_del_present_removes.
+
+Theorem C15_len_counts_values : forall st ks vs a e,
+  v_len (aview st ks vs a e) = length (values_of a) /\
+  NoDup (values_of a) /\
+  (WF a -> forall v, In v (values_of a) <-> exists k, aval a k = Some v).
+Proof. exact len_counts_values. Qed.
+Print Assumptions C15_len_counts_values.
+
+Theorem C15_tuple_sorted_by_stamp : forall a v, WF a ->
+  StronglySorted (fun k1 k2 => stamp a k1 < stamp a k2) (keys_of a v) /\
+  NoDup (keys_of a v) /\
+  (forall k, In k (keys_of a v) <-> aval a k = Some v).
+Proof. exact tuple_sorted_by_stamp. Qed.
+Print Assumptions C15_tuple_sorted_by_stamp.
+
+Theorem C15_tuple_sorted_by_stamp_reachable : forall st ops v,
+  let a := astate_after st ops in
+  StronglySorted (fun k1 k2 => stamp a k1 < stamp a k2) (keys_of a v) /\
+  NoDup (keys_of a v) /\
+  (forall k, In k (keys_of a v) <-> aval a k = Some v).
+Proof. exact tuple_sorted_by_stamp_reachable. Qed.
+Print Assumptions C15_tuple_sorted_by_stamp_reachable.
+
+Theorem C15_set_tuple_shape : forall a kt v w, WF a ->
+  keys_of (aspec_set false a kt v) w =
+  if Nat.eqb w v then filter (notin kt) (keys_of a v) ++ dedup_last kt
+  else filter (notin kt) (keys_of a w).
+Proof. exact set_tuple_shape. Qed.
+Print Assumptions C15_set_tuple_shape.
+
+Theorem C15_del_tuple_shape : forall a k w, WF a ->
+  keys_of (adel1 a k) w = filter (nk k) (keys_of a w).
+Proof. exact del_tuple_shape. Qed.
+Print Assumptions C15_del_tuple_shape.
+
+Theorem C15_sd_attr_eq_item : forall ks vs a e,
+  v_attr (aview true ks vs a e) = v_get (aview true ks vs a e).
+Proof. exact sd_attr_eq_item. Qed.
+Print Assumptions C15_sd_attr_eq_item.
+
+Theorem C15_sd_default_first_stored : forall kt v kt' v',
+  kt <> [] -> (forall k, In k kt' -> ~ In k kt) ->
+  let a1 := aspec_set true ainit kt v in
+  adefault a1 = Some v /\ adefault (aspec_set true a1 kt' v') = Some v.
+Proof. exact sd_default_first_stored. Qed.
+Print Assumptions C15_sd_default_first_stored.
+
+(* ---- a corollary transferred to the implementation model by the refinement *)
+Theorem C15_mkd_get_after_set : forall ks vs ops kt v,
+  Forall op_ok ops -> kt <> [] ->
+  exists views vw,
+    mrun ks vs empty (ops ++ [OSet kt v]) = views ++ [vw] /\
+    v_raised vw = false /\
+    v_get vw = map (fun k => if mem k kt then Some v else aval (astate_after false ops) k) ks.
+Proof. exact mkd_get_after_set. Qed.
+Print Assumptions C15_mkd_get_after_set.
+
+(* ---- non-vacuity: a 2-key tuple, an overwrite, a delete, a merge *)
+Example C15_nonvacuous :
+  let ks := [1; 2; 3] in
+  let vs := [7; 8] in
+  let ops := [OSet [1; 2] 7; OSet [2] 8; ODel 1; OSet [3; 1] 8] in
+  let expected :=
+    [ VIEW false [Some 7; Some 7; None] [Some [1; 2]; Some [1; 2]; None] [[1; 2]; []] 1 [[1; 2]] [7] [] None;
+      VIEW false [Some 7; Some 8; None] [Some [1]; Some [2]; None] [[1]; [2]] 2 [[1]; [2]] [7; 8] [] None;
+      VIEW false [None; Some 8; None] [None; Some [2]; None] [[]; [2]] 1 [[2]] [8] [] None;
+      VIEW false [Some 8; Some 8; Some 8] [Some [2; 3; 1]; Some [2; 3; 1]; Some [2; 3; 1]]
+           [[]; [2; 3; 1]] 1 [[2; 3; 1]] [8] [] None ] in
+  Forall op_ok ops /\
+  mrun ks vs empty ops = expected /\
+  arun false ks vs ainit ops = expected /\
+  map v_default (srun ks vs sd_empty ops) = [Some 7; Some 7; None; Some 8] /\
+  map v_default (arun true ks vs ainit ops) = [Some 7; Some 7; None; Some 8].
+Proof.
+  cbv zeta. split; [repeat constructor; discriminate|].
+  split; [vm_compute; reflexivity|]. split; [vm_compute; reflexivity|].
+  split; vm_compute; reflexivity.
+Qed.
+Print Assumptions C15_nonvacuous.
